@@ -2,6 +2,7 @@ package rules
 
 import (
 	"fmt"
+	"go/token"
 	"go/types"
 	"sort"
 	"strings"
@@ -188,6 +189,62 @@ func runC20(c *kit.Ctx) {
 		return strings.Join(names, ", ")
 	}
 
+	// roots that reach a function (finding identity: the API entry, not the helper that
+	// happens to contain the access)
+	rootReach := map[*ssa.Function]map[*ssa.Function]bool{}
+	rootsOf := func(target *ssa.Function) []string {
+		var names []string
+		for _, r := range roots {
+			rs, ok := rootReach[r]
+			if !ok {
+				rs = c.Reach([]*ssa.Function{r}, false, stopAtCtor)
+				rootReach[r] = rs
+			}
+			if rs[target] {
+				names = append(names, kit.FuncName(r))
+			}
+		}
+		sort.Strings(names)
+		return names
+	}
+	_ = rootsOf
+	// innermost roots only: an RPC handler that merely calls the Torrent/Session API
+	// method is not a second identity of the finding
+	minimalRoots := func(target *ssa.Function) []string {
+		var rs []*ssa.Function
+		for _, r := range roots {
+			reach, ok := rootReach[r]
+			if !ok {
+				reach = c.Reach([]*ssa.Function{r}, false, stopAtCtor)
+				rootReach[r] = reach
+			}
+			if reach[target] {
+				rs = append(rs, r)
+			}
+		}
+		var names []string
+		for _, r2 := range rs {
+			covered := false
+			for _, r1 := range rs {
+				if r1 != r2 && rootReach[r2][r1] && !rootReach[r1][r2] {
+					covered = true
+				}
+			}
+			if !covered {
+				names = append(names, kit.FuncName(r2))
+			}
+		}
+		sort.Strings(names)
+		return names
+	}
+	whoOf := func(fn *ssa.Function) string {
+		rs := minimalRoots(fn)
+		if len(rs) >= 1 && len(rs) <= 3 {
+			return strings.Join(rs, "+")
+		}
+		return kit.FuncName(fn)
+	}
+
 	// ---- field classes
 	neverNil := neverNilFields(c, tStruct, newTorrent)
 	loopWrites := map[tpath]bool{}
@@ -262,6 +319,25 @@ func runC20(c *kit.Ctx) {
 		path tpath
 	}
 	seen := map[obKey]bool{}
+	// several accessors under one API root share one obligation; it is violated if any of them is
+	type verdictT struct {
+		bad bool
+		pos token.Pos
+		msg string
+	}
+	verdicts := map[string]*verdictT{}
+	var vorder []string
+	verdict := func(key string, bad bool, pos token.Pos, msg string) {
+		v, ok := verdicts[key]
+		if !ok {
+			verdicts[key] = &verdictT{bad, pos, msg}
+			vorder = append(vorder, key)
+			return
+		}
+		if bad && !v.bad {
+			*v = verdictT{bad, pos, msg}
+		}
+	}
 	var fns []*ssa.Function
 	for fn := range outside {
 		if fn.Blocks != nil && kit.InModule(kit.FnPkgPath(fn)) {
@@ -302,20 +378,28 @@ func runC20(c *kit.Ctx) {
 			if a.write {
 				mode = "writes"
 			}
-			key := fmt.Sprintf("%s %s %s", kit.FuncName(fn), mode, a.path)
+			key := fmt.Sprintf("%s %s %s", whoOf(fn), mode, a.path)
 			// exceptions
 			if afterClose(fn, a.ins) {
 				seen[ok] = true
-				c.OK("R20.1", key, posOf(a.ins), "access ordered after (*torrent).Close() (the loop has exited)")
+				verdict(key, false, posOf(a.ins), "access ordered after (*torrent).Close() (the loop has exited)")
 				continue
 			}
 			if a.path.f1 == fBitfield && !a.write && (heldAt(fn, a.ins) || holdsViaCallers(fn, 0)) {
 				seen[ok] = true
-				c.OK("R20.1", key, posOf(a.ins), "bitfield read under mBitfield")
+				verdict(key, false, posOf(a.ins), "bitfield read under mBitfield")
 				continue
 			}
 			seen[ok] = true
-			c.Bad("R20.1", key, posOf(a.ins), "%s %s %s from outside the event loop (reachable from %s) while the loop writes it: unsynchronised access", kit.FuncName(fn), mode, a.path, reachedFrom(fn))
+			verdict(key, true, posOf(a.ins), fmt.Sprintf("%s %s %s from outside the event loop (reachable from %s) while the loop writes it: unsynchronised access", kit.FuncName(fn), mode, a.path, reachedFrom(fn)))
+		}
+	}
+	for _, key := range vorder {
+		v := verdicts[key]
+		if v.bad {
+			c.Bad("R20.1", key, v.pos, "%s", v.msg)
+		} else {
+			c.OK("R20.1", key, v.pos, "%s", v.msg)
 		}
 	}
 	// loop-side writes of lock-guarded fields hold the write lock
@@ -334,6 +418,9 @@ func runC20(c *kit.Ctx) {
 
 	runC20Session(c, k)
 	runRendezvous(c, k, "R20.4")
+	runC20Locks(c, k)
+	runC20Alias(c, k)
+	runC20Reply(c, k)
 }
 
 // mutexFlow: fact "mutex field m is held" (Lock/RLock gen, Unlock/RUnlock
